@@ -368,9 +368,11 @@ def condExprU (c x y : E) : E :=
   | _ => E.cond (groupExpr c opCoalesce) (groupExpr x opAssign) (groupExpr y opAssign)
 
 /-- `commaExpr(x, y)` of util.go -/
-def commaExprU (x y : E) : E :=
-  let lx := match x with | comma l => l | e => [e]
-  let ly := match y with | comma l => l | e => [e]
-  comma (lx ++ ly)
+def commaItems (e : E) : List E :=
+  match e with
+  | comma (a :: t) => a :: t
+  | e => [e]      -- (an empty comma list does not exist in a parsed tree; it is kept as an item)
+
+def commaExprU (x y : E) : E := comma (commaItems x ++ commaItems y)
 
 end Verif.Model.JsOpt
